@@ -48,6 +48,8 @@ def scenarios(draw):
     sc.pop("truth", None)
     lens = {c[0]: c[1] for c in sc["chroms"]}
     sc["reads"] = [r for r in sc["reads"] if R.cigar_blocks(r["p"], r["cg"])[-1][1] + 45 < lens[r["c"]]]
+    for i in range(src.int(0, 3)):
+        sc["reads"].append(S.unmapped_read("u%d" % i))
     grouping = src.choice(["none", "none", "tag", "file"])
     if grouping != "none":
         for r in sc["reads"]:
